@@ -103,6 +103,7 @@ def run_case(ctx, case, rng):
     p = pair.Pair(rng=rng, server_kw=skw)
     cm.watch(p.tc, p.rec, "c")
     cm.watch(p.ts, p.rec, "s")
+    rd = None
     try:
         if not p.start() or not p.auth():
             ctx.inconclusive("handshake failed")
@@ -181,9 +182,8 @@ def run_case(ctx, case, rng):
             elif ub == "loss":
                 p.link.abrupt()
             wait_call(t, p)
-            if rd is not None:
-                rd.stop()
         else:
+            rd = None
             wait_call(t, p)
         flags = "eof_sent=%s, closed=%s, transport active=%s" % (bool(x.eof_sent), bool(x.closed), bool(tx.is_active()))
         desc = dict(case=case, flags=flags)
@@ -240,6 +240,8 @@ def run_case(ctx, case, rng):
                               desc)
         ctx.count("cases_run")
     finally:
+        if rd is not None:
+            rd.stop()
         p.close()
 
 
